@@ -388,6 +388,12 @@ def _fromiter(top):
                                 ["it begin", src, "it from " + kind, "it use 1"] + lines + _finish(ns, ex)
                                 + ["it use 0", "it xvalue", "it consume d", "it advance"]))
             k += 1
+    # a polynomial source supplies the parameters: 0, 1, 0.25 at the grid points -1, -0.5, 0
+    for n in ("5", "3"):
+        out.append(("frompoly:%s" % n, ["it begin", "it profile %s %s" % (n, H("poly -3.5 -3.25 0.25")), "it from range", "it use 1", "it walk 9",
+                                        "it use 0", "it xvalue", "it consume d", "it consume d"]))
+    out.append(("frompoly:d", ["it begin", "it poly 5 " + H("-3.5 -3.25 0.25"), "it consume d", "it consume d", "it consume skip", "it consume d",
+                               "it reset", "it from range", "it use 1", "it walk 9"]))
     # generators, buffers and partly consumed texts as argument sources
     for kind in ("lin", "range", "fac"):
         out.append(("fromgen:%s" % kind, ["it begin", "it create " + H("4 0 1 0.25 7"), "it from " + kind, "it use 1", "it walk 9", "it use 0", "it walk 9"]))
@@ -511,6 +517,39 @@ def _consume():
     return out
 
 
+def _narrow():
+    """an element read more than once, the later reading narrower (uint32) and possibly refused: the element keeps
+    its end, the following elements are not lost"""
+    out = []
+    texts = ["-5 7 8", "1 2 -3 4 5", "300 7 8", "1.5 2 3", "7,-1;x", "4 5", "-1"]
+    for ti, t in enumerate(texts):
+        for n in range(0, 5):
+            for seq in itertools.product("rua", repeat=n):
+                lines = [{"r": "it xvalue", "u": "it uvalue", "a": "it advance"}[o] for o in seq]
+                out.append(("narrow:%d:%s" % (ti, "".join(seq)), ["it begin", "it string %s null" % H(t)] + lines
+                            + ["it xvalue", "it uvalue", "it advance", "it walk 6", "it reset", "it walk 6"]))
+    return out
+
+
+def _messages(top):
+    """buffer argument iterator made from a NUL-delimited message (mpt_message_iterator, separator 0): empty
+    arguments inside and at the ends, an unterminated last argument, a message split in two parts"""
+    out = []
+    msgs = [("73657400616c7068610000626574610067616d6d6100", None), ("007800", None), ("6100620000", None), ("6100", None), ("61", None),
+            ("00", None), ("0000", None), ("-", None), ("610062", None), ("73657400616c", "7068610000626574610067616d6d6100"),
+            ("736574", "00616c70686100"), ("7365740061", "-"), ("-", "6100006200"), ("6100", "00620000")]
+    for mi, (a, b) in enumerate(msgs):
+        create = "it msg " + a + ("" if b is None else " " + b)
+        for k in range(0, min(top, 3) + 1):
+            for seq in itertools.product("razcw", repeat=k):
+                lines, ns = _bufops(seq)
+                fin = ["it svalue", "it swalk 9", "it advance", "it svalue"]
+                for j in range(ns):
+                    fin += ["it use %d" % j, "it svalue", "it reset", "it swalk 9"]
+                out.append(("msg:%d:%s" % (mi, "".join(seq)), ["it begin", create] + lines + fin))
+    return out
+
+
 def _plumbing():
     """metatype plumbing of every kind of source, values that are no description, mpt_range_set with
     non-iterator values, an unknown element type for mpt_iterator_consume"""
@@ -531,7 +570,7 @@ def _plumbing():
 
 def scripts(tier, seed, scale=1):
     top = 3 if tier == "quick" else 4
-    return (_exhaustive(top) + _strings(top) + _buffers(top) + _fromiter(top) + _polydirect(top) + _extreme() + _words(top) + _keys() + _history() + _consume() + _boundary() + _plumbing()
+    return (_exhaustive(top) + _strings(top) + _buffers(top) + _fromiter(top) + _polydirect(top) + _extreme() + _words(top) + _keys() + _history() + _consume() + _boundary() + _plumbing() + _narrow() + _messages(top)
             + _random(tier, seed, scale))
 
 
